@@ -53,10 +53,13 @@ def gen_histories(tier: str, seed: int) -> list[dict[str, Any]]:
         dict(F=1, I=2, accum=1, in_hook=False),
         dict(F=2, I=3, accum=2, in_hook=True),
         dict(F=2, I=2, accum=1, in_hook=False),
+        dict(F=1, I=2, accum=1, in_hook=False),
     ]
     depth = 6 if tier == 'quick' else 8
     alphas = [['Train', 'Step', 'Save', 'Load'], ['Train', 'Step', 'Mem'],
-              ['Train', 'Step', 'Eval', 'Mem'], ['Train', 'Step', 'Save', 'Load']]
+              ['Train', 'Step', 'Eval', 'Mem'], ['Train', 'Step', 'Save', 'Load'],
+              # factor-update steps without a new batch
+              ['Train', 'Step', 'ResetMid']]
     from concurrent.futures import ThreadPoolExecutor
 
     def one(arg):
@@ -77,6 +80,9 @@ def gen_histories(tier: str, seed: int) -> list[dict[str, Any]]:
         def score(h):
             acts = [x['act'] for x in h]
             return (acts.count('step') * 2 + ('mem' in acts)
+                    + 3 * any(a == 'reset' and 'step' in acts[i + 1:]
+                              and 'step' in acts[:i]
+                              for i, a in enumerate(acts))
                     + 2 * any(x['act'] == 'load' and x['x'].get('hasInv')
                               for x in h))
         rng = random.Random(seed)
@@ -235,6 +241,20 @@ def main(tier: str, seed: int) -> int:
                  'strategy': 'comm_opt' if cs['cfg']['k'] == cs['cfg']['W']
                  else 'mem_opt' if cs['cfg']['k'] == 1 else 'hybrid_opt'},
                 replay={'case': cs})
+    # design level: the protocol KfacDist.tla derives satisfies every clause
+    # and never stalls (blocking reading) for every world size, gradient-
+    # worker count, layer list, method and communication flag in scope
+    if tier == 'quick':
+        dcs = dist.design_cases(6, limit=80, seed=seed)
+    else:
+        dcs = dist.design_cases(6) + dist.design_cases(8, limit=1500, seed=seed)
+    dbad, dstates, dtrans = dist.check_design(dcs)
+    states += dstates
+    trans += dtrans
+    for j in dbad[:5]:
+        v.violation('spec/KfacDist.tla: DesignOK fails on the derived protocol '
+                    f':: {json.dumps({k: x for k, x in dcs[j].items() if k not in ("trace", "hist", "holders")}, default=list)[:400]}',
+                    {'kind': 'spec', 'inv': 'DesignOK'})
     if drift:
         v.note(f'model-drift: {drift} executions whose recorded collective '
                'sequence differs from KfacDist.tla although every clause '
@@ -242,6 +262,7 @@ def main(tier: str, seed: int) -> int:
     v.coverage = {
         'states': max(states, 1), 'transitions': max(trans, 1),
         'traces_validated_against_impl': len(kcases),
+        'design_cases': len(dcs),
         'samples': [{'cfg': cases[0]['cfg'],
                      'history': [[x['act'], x['arg']] for x in cases[0]['h']],
                      'rank0_trace_head': [
